@@ -20,7 +20,7 @@ func init() {
 			"(R1) the table length is stored only by the grow, swap-remove and reset roles, and in the two that decrease it every column is zeroed for every vacated row on all paths before the store (swap-remove: all three branches; reset: both zeroing strategies; in the reset role no store of the length precedes the column reset on any path, since the columns are reset over the length they are handed); " +
 			"(R2) every raw byte copy whose operands derive from a component column is dominated by the true branch of that column's trivial (pointer-free) flag, in the function or at all its call sites; " +
 			"(R3) the function computing the trivial flag returns false for every kind whose representation holds a pointer (Pointer, Slice, Map, Chan, Interface, String, Func, UnsafePointer) and recurses into all struct fields and array elements; " +
-			"(R4) a capacity change allocates fresh typed arrays and copies the live rows on both the raw and the reflection path; (R5) byte quantities are item-size-scaled: every expression in a byte position - a bound of a byte view of raw memory, the offset of unsafe.Add, and transitively every argument that reaches such a position through a parameter (which is how the size argument of the raw-copy role is found) - is not a number of rows by dimensional analysis (item sizes, Sizeof, Type.Size and byte-slice lengths are bytes; table lengths and what is summed from them are rows; rows x bytes are bytes; unknown dimensions are not reported). Not decided: actual collectability, finalizers, behaviour under a concurrent collector.",
+			"(R4) a capacity change allocates fresh typed arrays and copies the live rows on both the raw and the reflection path; (R5) byte quantities are item-size-scaled: every expression in a byte position - a bound of a byte view of raw memory, the offset of unsafe.Add, and transitively every argument that reaches such a position through a parameter (which is how the size argument of the raw-copy role is found) - is not a number of rows by dimensional analysis (item sizes, Sizeof, Type.Size and byte-slice lengths are bytes; table lengths and what is summed from them are rows; rows x bytes are bytes; unknown dimensions are not reported). (R6) wherever a column is constructed, its element type and its pointer-free flag are the component registry's entries for the same component id (followed through constructor parameters to the call sites). (R7) the per-archetype zero buffer is allocated with a maximum that the loop recording the column item sizes raises for every column (the update is reached by every iteration and compares the recorded size). Not decided: actual collectability, finalizers, behaviour under a concurrent collector.",
 		TrustedBase: []string{"go/types, go/cfg", "reflect.New/ArrayOf return zeroed typed memory; reflect.Copy/Set/SetZero are GC-safe"},
 		Rules: []Rule{
 			{ID: "C11/R1", Run: c11r1, Min: 1},
@@ -28,6 +28,8 @@ func init() {
 			{ID: "C11/R3", Run: c11r3, Min: 1},
 			{ID: "C11/R4", Run: c11r4, Min: 1},
 			{ID: "C11/R5", Run: c11r5, Min: 1},
+			{ID: "C11/R6", Run: c11r6, Min: 1},
+			{ID: "C11/R7", Run: c11r7, Min: 1},
 		},
 	})
 }
